@@ -1,5 +1,258 @@
-"""Bundled real-world grammars (placeholder until the corpus harvest is built)."""
+"""Bundled real-world grammars under the invariant / totality / failure / start_pos judges.
+
+No reference model is involved: C06, C07, C13 are invariant monitors and C16 is metamorphic.
+Inputs = shipped example documents + (grammar, rule, input) triples harvested from the
+repository's own test-suite (run in a temporary copy) + single-edit mutants and truncations.
+"""
+
+from __future__ import annotations
+
+import random
+
+from pv import harvest, monitor
+from pv.common import Acc, Run, run_workers, seed_int
+from pv.engine import check_failure, check_tree_invariants
+from pv.modes import Modes, brief, run, shift_tree
+
+MUT_ALPHA = list(" \n\t\"'{}[](),:;=#-+*/\\.0aZ_<>!?@$&|~^%é")
 
 
-def run_bundled(run, prop, judges) -> None:
-    return None
+def mutants(rnd: random.Random, s: str, n: int) -> list[str]:
+    out = []
+    for _ in range(n):
+        if not s:
+            out.append(rnd.choice(MUT_ALPHA))
+            continue
+        i = rnd.randrange(len(s) + 1)
+        c = rnd.random()
+        if c < 0.25 and i < len(s):
+            out.append(s[:i] + s[i + 1 :])
+        elif c < 0.5:
+            out.append(s[:i] + rnd.choice(MUT_ALPHA) + s[i:])
+        elif c < 0.7 and i < len(s):
+            out.append(s[:i] + rnd.choice(MUT_ALPHA) + s[i + 1 :])
+        elif c < 0.9:
+            out.append(s[:i])  # truncation: input ending mid-construct
+        else:
+            j = rnd.randrange(len(s) + 1)
+            a, b = sorted((i, j))
+            out.append(s[:a] + s[b:])
+    return out
+
+
+def static_info(parser) -> tuple[set[str], set[str], set[str], set[str]]:
+    """non-silent rule names, silent rule names, tags written, rules that can reach SOI - from the loaded rule trees."""
+    from pest.grammar.rule import SILENT, BuiltInRule
+
+    nonsilent = {"EOI"}
+    silent = set()
+    tags: set[str] = set()
+    direct_soi: set[str] = set()
+    refs: dict[str, set[str]] = {}
+
+    def walk(e, owner, seen):
+        if id(e) in seen:
+            return
+        seen.add(id(e))
+        t = getattr(e, "tag", None)
+        if t:
+            tags.add(t)
+        tn = type(e).__name__
+        if tn == "SOI" or (tn == "Identifier" and getattr(e, "value", None) == "SOI"):
+            direct_soi.add(owner)
+        if tn == "Identifier":
+            refs[owner].add(e.value)
+        for c in e.children():
+            walk(c, owner, seen)
+
+    for name, r in parser.rules.items():
+        if isinstance(r, BuiltInRule):
+            continue
+        (silent if r.modifier & SILENT else nonsilent).add(name)
+        refs[name] = set()
+        walk(r, name, set())
+    # trivia rules are reachable from every rule
+    reach = set(direct_soi)
+    changed = True
+    while changed:
+        changed = False
+        for name, rs in refs.items():
+            if name not in reach and (rs & reach):
+                reach.add(name)
+                changed = True
+    if reach & {"WHITESPACE", "COMMENT"}:
+        reach = set(refs)
+    return nonsilent, silent, tags, reach
+
+
+def worker(shard: dict) -> dict:  # noqa: PLR0912, PLR0915
+    acc = Acc()
+    judges = set(shard["judges"])
+    monitor.install()
+    monitor.CFG["t4"] = "c13" in judges
+    rnd = random.Random(shard["seed"])
+    key = shard["key"]
+    text = shard["text"]
+    md = Modes(text)
+    objs = {}
+    # unoptimized modes first (no optimizer has run in this process before them)
+    for m in ("I", "GI", "O", "GO"):
+        o = md.get(m)
+        if o is None:
+            acc.count(f"bundled.build_failed.{m}")
+            acc.inconclusive.append(f"bundled grammar {key} does not build in mode {m}: {md.errors[m]}")
+            continue
+        if m in ("GI", "GO"):
+            monitor.attach(o)
+        objs[m] = o
+    if "I" not in objs:
+        return acc.dump()
+    nonsilent, silent, tags, soi_rules = static_info(objs["I"])
+    from pest import Parser
+
+    known = set(objs["I"].rules) | set(Parser.BUILTIN) | {"SKIP"} - {"SKIP"}
+    cases: list[tuple[str, str, int]] = []
+    if shard.get("explicit"):
+        cases = [tuple(c) for c in shard["explicit"]]
+        shard = dict(shard, cases=[])
+    for rule, inp in shard["cases"]:
+        cases.append((rule, inp, 0))
+        nm = shard["mutants"] if len(inp) < 400 else max(2, shard["mutants"] // 6)
+        for mu in mutants(rnd, inp, nm):
+            cases.append((rule, mu, 0))
+        if inp and len(inp) < 200:
+            cases.append((rule, inp, rnd.randrange(len(inp) + 1)))
+    if "c16" in judges and not cases:
+        emb = []
+        for rule, inp in shard["cases"]:
+            if 0 < len(inp) <= 80 and rule not in soi_rules:
+                emb.append((rule, inp))
+        cases = [(r, i, 0) for r, i in emb[: shard.get("c16_cases", 25)]]
+        for r, i in emb[: shard.get("c16_cases", 25)]:
+            for mu in mutants(rnd, i, 2):
+                if 0 < len(mu) <= 80:
+                    cases.append((r, mu, 0))
+    seen = set()
+    viol_keys: dict[tuple, int] = {}
+
+    def violation(judge, vkey, rule, inp, st, mode, expected, observed, extra=None):
+        n = viol_keys.get((judge,) + vkey, 0)
+        viol_keys[(judge,) + vkey] = n + 1
+        if n >= 2:
+            acc.nviol += 1
+            return
+        d = {"judge": judge, "key": list(vkey), "label": "bundled/" + key, "grammar_key": key, "grammar": text if len(text) < 1500 else text[:1500] + "...", "rule": rule, "input": inp, "start": st, "mode": mode, "expected": expected, "observed": observed, "bundled": True}
+        if extra:
+            d.update(extra)
+        acc.violation(judge, d)
+
+    for rule, inp, st in cases:
+        if (rule, inp, st) in seen:
+            continue
+        seen.add((rule, inp, st))
+        acc.nontrivial(key, rule, inp, st)
+        monitor.set_budget(5_000_000 + 5000 * len(inp))
+        for m, o in objs.items():
+            keep: list = []
+            try:
+                res = run(o, rule, inp, st, keep)
+            except monitor.BudgetExceeded as b:
+                res = ("exc", "BudgetExceeded", str(b))
+            except monitor.MonitorViolation as mv:
+                violation("monitor", (mv.what, m), rule, inp, st, m, "state discipline", mv.detail)
+                res = ("exc", "MonitorViolation", mv.what)
+            acc.count("bundled.parses")
+            acc.count(f"bundled.outcome.{res[0]}")
+            raw = keep[0] if keep else None
+            if "c07" in judges:
+                acc.count("bundled.c07.calls")
+                if res[0] == "exc" and res[1] != "RecursionError":
+                    violation("c07", (m, res[1]), rule, inp, st, m, "Pairs or PestParsingError", brief(res))
+                elif res[0] != "exc":
+                    res2 = run(o, rule, inp, st)
+                    if res2 != res:
+                        violation("c07", (m, "nondeterministic"), rule, inp, st, m, brief(res)[:300], brief(res2)[:300])
+            if "c06" in judges and res[0] == "ok":
+                acc.count("bundled.c06.trees_checked")
+                why = check_tree_invariants(raw, inp, st, nonsilent, tags, rule in silent)
+                if why:
+                    w = why.split(" ")
+                    violation("c06", (m, w[0], w[1] if len(w) > 1 else ""), rule, inp, st, m, "well-formed tree", why)
+                else:
+                    n = sum(1 for _ in raw.flatten())
+                    acc.count("bundled.c06.pairs_checked", n)
+                    acc.maxi("bundled.c06.max_pairs_in_tree", n)
+            if "c13" in judges and res[0] == "fail":
+                acc.count("bundled.c13.failures_checked")
+                if "\n" in inp:
+                    acc.count("bundled.c13.multi_line_inputs")
+                why = check_failure(raw, inp, st, known)
+                if why:
+                    w = why.split(" ")
+                    violation("c13", (m, w[0], w[1] if len(w) > 1 else ""), rule, inp, st, m, "valid failure record", why, {"result": brief(res)[:300]})
+            if "c16" in judges and st == 0 and rule not in soi_rules and res[0] != "exc":
+                ks = sorted({0, len(inp), *(rnd.randrange(len(inp) + 1) for _ in range(6))}) if len(inp) > 8 else range(len(inp) + 1)
+                for k in ks:
+                    rk = run(o, rule, inp, k)
+                    rs = run(o, rule, inp[k:], 0)
+                    acc.count("bundled.c16.comparisons")
+                    if rs[0] == "ok":
+                        exp = ("ok", shift_tree(rs[1], k))
+                    elif rs[0] == "fail":
+                        exp = ("fail", rs[1] + k if rs[1] >= 0 else rs[1]) + rs[2:]
+                    else:
+                        exp = rs
+                    if rk != exp and not (rk[0] == "exc" and rk[1] == "RecursionError"):
+                        violation("c16", (m, f"{rk[0]}-vs-{exp[0]}"), rule, inp, k, m, brief(exp)[:400], brief(rk)[:400])
+                    if k:
+                        other = "".join("q" if c != "q" else "r" for c in inp[:k]) + inp[k:]
+                        ro = run(o, rule, other, k)
+                        acc.count("bundled.c16.prefix_variations")
+                        if ro != rk:
+                            violation("c16", (m, "prefix-consulted"), rule, inp, k, m, brief(rk)[:400], brief(ro)[:400], {"varied_text": other})
+    if "c16" in judges:
+        acc.count("bundled.c16.rules_reaching_SOI", len(soi_rules))
+        acc.count("bundled.c16.rules_SOI_free", len(nonsilent | silent) - len(soi_rules))
+    acc.count("bundled.grammars")
+    if len(acc.samples) < 1 and cases:
+        r, i, s = cases[min(3, len(cases) - 1)]
+        acc.sample({"bundled_grammar": key, "rule": r, "input": i[:200], "start": s})
+    for k, v in monitor.STATS.items():
+        if not k.endswith("max_depth"):
+            acc.c[k] += v
+    return acc.dump()
+
+
+def run_bundled(run: Run, prop: str, judges: list[str]) -> None:
+    corpus = harvest.build_corpus()
+    for n in corpus["notes"]:
+        run.notes.append(n)
+    run.acc.count("bundled.harvested_cases", corpus.get("harvested_cases", 0))
+    shards = []
+    for key, g in corpus["grammars"].items():
+        if not g["cases"]:
+            continue
+        shards.append(
+            {
+                "key": key, "text": g["text"], "cases": g["cases"], "judges": judges, "seed": seed_int(prop, run.seed, "bundled", key),
+                "mutants": run.pick(6, 40), "c16_cases": run.pick(25, 80),
+            }
+        )
+    run_workers("pv.checks.bundled", "worker", shards, timeout_s=run.pick(600, 3600), acc=run.acc)
+
+
+def replay_bundled(prop: str, path: str, v: dict, judges: list[str]) -> int:
+    corpus = harvest.build_corpus(with_harvest=v["grammar_key"].startswith("harvested_"))
+    g = corpus["grammars"].get(v["grammar_key"])
+    if g is None:
+        print("bundled grammar not found:", v["grammar_key"])
+        return 2
+    d = worker({"key": v["grammar_key"], "text": g["text"], "cases": [], "explicit": [[v["rule"], v["input"], 0 if "c16" in judges else v["start"]]], "judges": judges, "seed": 0, "mutants": 0})
+    print(f"bundled grammar {v['grammar_key']} rule={v['rule']!r} input={v['input']!r} start={v['start']} mode={v['mode']}")
+    if d["nviol"] or d["violations"]:
+        for x in d["violations"]:
+            print("reproduced:", x["judge"], x["mode"], "expected", x["expected"], "observed", x["observed"])
+        print(f"VIOLATION property={prop} replay={path}")
+        return 1
+    print("not reproduced")
+    return 0
